@@ -29,7 +29,9 @@
 (*                   (absorbing successors worth 0); initial value with absorbing        *)
 (*                   initial states worth 0                                              *)
 (*     Sampling with the seeded generator = nondeterministic choice (every seed = every  *)
-(*     history).  V is total (defaultdict2: the heuristic where nothing is stored), upd   *)
+(*     history).  V is total (defaultdict2: where nothing is stored it reads 0 at an      *)
+(*     absorbing state and the heuristic elsewhere - so an absorbing state met by the     *)
+(*     labelling procedure passes the residual test without ever being stored), upd       *)
 (*     is the set of stored keys.                                                        *)
 (* (P) properties: bottom of the module.                                                 *)
 (* Modes (per batch record, field mode):                                                 *)
@@ -173,10 +175,11 @@ UpperClause(m, v, vstar) == AllOf({GLeq(GR(vstar[s]), GInt(v[s], SC(m))) : s \in
 \* the initial value the code reports: sum p0 * V over the initial states of positive probability, absorbing
 \* ones worth 0 (numerator over ID * SC)
 InitValNum(m, v) == SumTo([s \in St(m) |-> IF IsAbs(m, s) THEN 0 ELSE m.p0[s] * v[s]], m.N)
-\* clause: absorbing states are worth 0 where the result reads them: the stored entries, and the initial
-\* value is the expectation over the non-absorbing initial states only
+\* clause: absorbing states are worth 0 wherever the result can be read: the value table (stored or
+\* defaulted) at every absorbing state, and the initial value is the expectation over the non-absorbing
+\* initial states only
 AbsZeroClause(m, v, u) ==
-  /\ \A s \in ExplAbs(m) \cap u : v[s] = 0
+  /\ \A s \in ExplAbs(m) : v[s] = 0
   /\ InitValNum(m, v) = SumTo([s \in St(m) |-> IF s \in ExplAbs(m) THEN 0 ELSE m.p0[s] * v[s]], m.N)
 
 \* ------------------------------------------------------------------ histories / scripts
@@ -203,7 +206,7 @@ Orders(m) == IF m.rand = 1 /\ ModeOf(m) = "mc"
 Init ==
   /\ iid \in 1..Len(Batch)
   /\ ord \in {o \in Orders(Batch[iid]) : \A s \in St(Batch[iid]) : o[s] \in PermSeqs(Batch[iid].aord[s])}
-  /\ V = [s \in St(Batch[iid]) |-> Batch[iid].h[s]]
+  /\ V = [s \in St(Batch[iid]) |-> IF IsAbs(Batch[iid], s) THEN 0 ELSE Batch[iid].h[s]]
   /\ upd = {} /\ solved = {} /\ stack = <<>> /\ inexact = FALSE
   /\ pc = IF ModeOf(Batch[iid]) = "judge" THEN "judge" ELSE "idle"
   /\ hist = [ch |-> <<>>, fail |-> 0, succ |-> 0]
@@ -333,8 +336,11 @@ CanProgress == Machine => ~Starved
 GapBound == (Machine /\ Done) => term.gap # "bad"
 \* (P5) ... and so is the exact return of the returned policy
 ReturnBound == (Machine /\ Done) => term.ret # "bad"
-\* (P6) absorbing states are worth 0 in what the result reads (stored entries, initial value)
-AbsorbingZero == (Machine /\ Done) => term.abszero
+\* (P6) absorbing states are worth 0 in what the result reads, whatever the heuristic says about them:
+\*      the value table reads 0 at every absorbing state at all times (stored or not), and at the end
+\*      the initial value counts them as 0
+AbsorbingZero == /\ Machine => \A s \in ExplAbs(M) : V[s] = 0
+                 /\ (Machine /\ Done) => term.abszero
 \* design lemma behind (P4)/(P5): the same bounds for the label-consistent policy (first maximiser of the
 \* final values everywhere) when the heuristic is monotone - then values only decrease, a labelled state
 \* keeps its greedy action and the bounds are theorems (Bonet & Geffner)
